@@ -102,9 +102,19 @@ def main(tier="quick"):
     for defect, inv in [("overwrite_no_release", "Counted"), ("abandon", "NoOrphan"), ("free_immediately", "NoUseAfterFree")]:
         cfg = os.path.join(WORK, "MC_Heap_st.cfg")
         txt = open(os.path.join(common.SPEC, "MC_Heap.cfg")).read()
+        # (without the strengthened invariant of HeapInd.tla, which trips first on every accounting defect)
+        txt = txt.replace(" IndInvOnHeap", "")
         open(cfg, "w").write(re.sub(r"Defects = \{\}", 'Defects = {"%s"}' % defect, re.sub(r"MaxOps = \d+", "MaxOps = 8", txt)))
         res = tlc("Heap", cfg, workers=4, timeout=300)
         expect("Heap.tla with defect %s violates %s" % (defect, inv), inv in res.violated, str(res.violated))
+
+    # ... and the inductive invariant read on Heap.tla trips on the accounting defects as well
+    for defect in ("overwrite_no_release", "abandon"):
+        cfg = os.path.join(WORK, "MC_Heap_st.cfg")
+        txt = open(os.path.join(common.SPEC, "MC_Heap.cfg")).read()
+        open(cfg, "w").write(re.sub(r"Defects = \{\}", 'Defects = {"%s"}' % defect, re.sub(r"MaxOps = \d+", "MaxOps = 8", txt)))
+        res = tlc("Heap", cfg, workers=4, timeout=300)
+        expect("Heap.tla with defect %s violates IndInvOnHeap" % defect, bool(res.violated), str(res.violated))
 
     # action coverage of an exhaustive run
     res = runtime.model_check(dict(families.select_cases(2)[6], defects=[]), "C05", workers=4, timeout=300)
